@@ -571,6 +571,7 @@ def w_source(case: dict) -> dict:
         os.makedirs(cdir)
         nref = [0]
         restricted = _make_restricted(top) if case.get("restricted") else None
+        ruse = [bool(restricted) and case.get("renv0", True)]   # is SPSDK_RESTRICTED_DATA_FOLDER in effect for the next processes
 
         def proc(light: bool, disabled: bool = False) -> Any:
             if disabled:
@@ -583,7 +584,7 @@ def w_source(case: dict) -> dict:
             def body():
                 _child_env(c, disabled=disabled)
                 dbm.SPSDK_DATA_FOLDER = data
-                if restricted:
+                if restricted and ruse[0]:
                     dbm.SPSDK_RESTRICTED_DATA_FOLDER = restricted
                 return battery(_Z["devs"], light)
 
@@ -598,6 +599,10 @@ def w_source(case: dict) -> dict:
         observable = False
         for si, step in enumerate(case["steps"]):
             for name in step["edits"]:
+                if name in ("renv-on", "renv-off"):   # not an edit of the sources: the next processes run with / without the restricted folder
+                    ruse[0] = name == "renv-on"
+                    applied.append(name)
+                    continue
                 rv = name.startswith("revert:")
                 _apply_edit(data, name.split(":")[-1], si, revert=rv)
                 applied.append(name)
@@ -656,6 +661,12 @@ def source_cases(tier: str) -> list:
         for b in bats:
             for steps in ([["rdefaults"]], [["rdefaults"], ["revert:rdefaults"]], [["defaults"]], [["rdefaults"], ["defaults"]], [["dev0"], ["rdefaults"]]):
                 out.append({"warm": w, "restricted": True, "steps": [{"edits": e, "battery": b} for e in steps]})
+    # the same cache folder used by processes with and without (or before and after configuring) the restricted-data folder
+    for w in warms:
+        for b in bats:
+            for renv0, steps in ((True, [["renv-off"]]), (True, [["renv-off"], ["renv-on"]]), (False, [["renv-on"]]), (False, [["renv-on"], ["renv-off"]]),
+                                 (True, [["renv-off", "dev0"]]), (False, [["renv-on", "rdefaults"]])):
+                out.append({"warm": w, "restricted": True, "renv0": renv0, "steps": [{"edits": e, "battery": b} for e in steps]})
     return out
 
 
